@@ -4,12 +4,15 @@ Model/Print.lean, Model/Quote.lean (+ the generated IsPrint table) and the indep
 spec Spec/Rfc8259.lean (RFC 8259 parser) / Spec/JsonData.lean (domain, denotation).
 Tie: channel `json` — real (json v) bytes vs model, Go's encoding/json as a second judge of
 well-formedness vs the Rfc8259 parser vs the denotation, (unjson (json v)) and
-(unmsgpack (msgpack v)) vs the value, printer and strconv.Quote/QuoteRune vs their models."""
+(unmsgpack (msgpack v)) vs the value, printer and strconv.Quote/QuoteRune vs their models;
+`hist` ops: HISTORIES of encode/decode steps on long-lived interpreters (all encoded results kept and
+decoded later in another order; decoded results mutated; the holder overwriting its bytes) vs the
+history law of Spec/JsonHistory.lean (an encoded result is a value)."""
 import vcommon as V
 
 META = dict(
-    text="Lean 4 theorems (Props/C11.lean) prove for every nested value of the property's domain, at any depth and for all string contents (any sequence of Unicode scalar values), that the model of SexpToJson produces a text which the RFC 8259 parser of Spec/Rfc8259.lean accepts and which denotes exactly that value (type name, members in field order, zKeyOrder), that decoding it again (sorted map walk, MakeHash, SetHashKeyOrder) gives the value back with the same record type names and the same key order at every level, numbers compared by value, and the same for msgpack under a stated codec round-trip law; quote_is_json_string characterises exactly for which byte strings Go's strconv.Quote output is a JSON string literal (over all 0x110000 code points through the IsPrint table regenerated from the standard library), which is why the pre-fix encoder was wrong. Unit tests only encode three records of plain ASCII words.",
-    note="Trusted: Lean kernel; axioms propext/Classical.choice/Quot.sound; the ugorji codec is modelled by the RFC 8259 parser plus its observable number/map choices, strconv.FormatFloat/ParseFloat enter as a per-value parameter with a shape law and a parse-back law (sampled, not proved); msgpack is a corollary under the codec law decode(encode g) = g (sampled through the channel). The models are hand-written and tied to zygo/jsonmsgp.go, expressions.go, hashutils.go by the `json` correspondence (exhaustive single-byte strings, every IsPrint transition point, boundary numbers, key-kind x value-kind grid, key-order permutations, random nested values), which is differential testing. Holds for the tree with fixes C11-01 (JSON string quoting) and C11-02 (nil is null) applied.",
+    text="Lean 4 theorems (Props/C11.lean) prove for every nested value of the property's domain, at any depth and for all string contents (any sequence of Unicode scalar values), that the model of SexpToJson produces a text which the RFC 8259 parser of Spec/Rfc8259.lean accepts and which denotes exactly that value (type name, members in field order, zKeyOrder), that decoding it again (sorted map walk, MakeHash, SetHashKeyOrder) gives the value back with the same record type names and the same key order at every level, numbers compared by value, and the same for msgpack under a stated codec round-trip law; quote_is_json_string characterises exactly for which byte strings Go's strconv.Quote output is a JSON string literal (over all 0x110000 code points through the IsPrint table regenerated from the standard library), which is why the pre-fix encoder was wrong. The round trip is stated for HISTORIES, not only for the one-expression form: Spec/JsonHistory.lean states for any implementation seen as a transition system that an encoded result is a value (EncodeResultsStable: what the holder of an encode result reads does not change, whatever is encoded or decoded afterwards; HistoryRoundTrip: decoding a kept result gives the value at every later step); the model (an append-only store of immutable encode results) is proved to satisfy both for all histories (encode_results_stable, history_roundtrip_partial, history_roundtrip_string), to answer every history of the op language exactly as the reference machine does (history_model_eq_spec, no bound on values or steps), and mutations of one decoded result leave every other one alone (decode_results_independent); a one-shared-buffer machine is proved to violate the law (encode_results_stable_sharedbuf_counterexample). Unit tests only encode three records of plain ASCII words and decode each at once.",
+    note="Trusted: Lean kernel; axioms propext/Classical.choice/Quot.sound; the ugorji codec is modelled by the RFC 8259 parser plus its observable number/map choices, strconv.FormatFloat/ParseFloat enter as a per-value parameter with a shape law and a parse-back law (sampled, not proved); msgpack is a corollary under the codec law decode(encode g) = g (sampled through the channel). The models are hand-written and tied to zygo/jsonmsgp.go, expressions.go, hashutils.go by the `json` correspondence (exhaustive single-byte strings, every IsPrint transition point, boundary numbers, key-kind x value-kind grid, key-order permutations, random nested values; histories of 2-6 encode/decode steps with all results kept: script builtins, the exported Go functions, two interleaved interpreters, successive encodings shorter/equal/longer, decoded results mutated with aset/hset, input bytes overwritten after decoding), which is differential testing. The store model's premise (no package-level variable is written by the encode/decode path) is C20's regenerated fact globals_writes_allowed, not re-proved here. GoToJson's text is not modelled: only that it is JSON and that its bytes stay what they were. Holds for the tree with fixes C11-01 (JSON string quoting) and C11-02 (nil is null) applied.",
     technique="Lean 4 proof over an executable model of the encoder/decoder and an RFC 8259 parser spec + model/implementation correspondence with encoding/json as second judge",
     design_ref="DESIGN.md §7 C11",
 )
@@ -23,6 +26,7 @@ def run(rep):
         "strconv.FormatFloat / ParseFloat are parameters: each float of an op carries the text the standard library printed; shape law (finite floats print as [-]digits[.digits][e+-digits]) and parse-back law are hypotheses of the theorems, sampled by this run",
         "msgpack: codec law decode(encode g) = g for Go values built from string/int64/float64/bool/nil/[]interface{}/map[string]interface{} is a hypothesis (msgpack_roundtrip), sampled by the `mp` ops",
         "domain: strings/symbols/type names are valid UTF-8, floats finite, keys symbols or strings; uint64, chars, NaN/Inf, lists are outside the property's domain (modelled and compared, not judged); round trip additionally needs pairwise distinct symbol keys other than Atype/zKeyOrder",
+        "histories: the model keeps every encode result as an immutable cell of an append-only store because no package-level variable is written on the encode/decode path (C20: Generated/Globals.lean, globals_writes_allowed); history_model_eq_spec has the one-step JSON round trip of the values and the msgpack codec law as hypotheses; values of a history are built afresh for every encode step (a cache keyed by the identity of the ORIGINAL value is not exercised); GoToJson's text is judged only for being JSON and for staying what it was",
         "Model/Json.lean, Model/Print.lean, Model/Quote.lean are hand-written; tied to the Go code by the `json` correspondence only; Generated/IsPrint.lean is computed by the Go standard library inside zyx",
     ]
     if not (prep["ok_drv"] and prep["ok_harness"]):
@@ -32,8 +36,13 @@ def run(rep):
     rows, stats = V.run_channel("json", rep.seed, rep.tier)
 
     def nontrivial(op, impl):
-        return impl not in ("err", "bad-op", "panic", "malformed")
-    bad_spec, bad_model = V.correspondence(rep, "json", rows, stats, nontrivial=nontrivial)
+        return impl not in ("err", "bad-op", "panic", "malformed", "out-of-domain")
+    single = [r for r in rows if not r[0].startswith("json hist ")]
+    hist = [r for r in rows if r[0].startswith("json hist ")]
+    hstats = {k: v for k, v in stats.items() if k.startswith("hist ")}
+    sstats = {k: v for k, v in stats.items() if not k.startswith("hist ")}
+    bad_spec, bad_model = V.correspondence(rep, "json", single, sstats, nontrivial=nontrivial)
+    bad_hist = history_phase(rep, hist, hstats)
     kinds = {}
     for op, impl, model, spec in rows:
         k = op.split(" ", 2)[1]
@@ -45,6 +54,70 @@ def run(rep):
     rep.coverage["exhaustive"] = False
     rep.coverage["rule"] = ("structured generators of harness/ch_json_gen.go: every single-byte string (as value, key, type name), every IsPrint transition "
                             "point, boundary ints/floats in both float formats, the key-kind x value-kind grid, all key-order permutations of a nested "
-                            "3-key record, random nested values to depth 5 / 40 nodes; an op is non-trivial when the implementation answered with data "
-                            "(not err/panic/malformed); distinct = distinct op lines")
-    V.proof_break_resolution(rep, bool(bad_spec))
+                            "3-key record, random nested values to depth 5 / 40 nodes; harness/ch_json_hist_gen.go: histories of 2-6 encode/decode steps on "
+                            "long-lived interpreters (every ordered pair of a size-graded value pool x format pairs x {script builtins, exported Go functions, "
+                            "two interleaved interpreters}, aliasing grids, random batch / interleaved / aliasing histories); an op is non-trivial when the "
+                            "implementation answered with data (not err/panic/malformed); distinct = distinct op lines")
+    V.proof_break_resolution(rep, bool(bad_spec) or bool(bad_hist))
+
+
+def history_phase(rep, rows, stats, max_report=3):
+    """`hist` ops: one line is a whole history on interpreters (and package-level state) that live as
+    long as the harness process. impl != spec is a failing input; because state left by EARLIER lines
+    of the run can matter (a grown buffer, a warm cache), each candidate is re-run alone in a fresh
+    process and the ones that reproduce alone are preferred for the replay; when none does, the replay
+    carries the shortest prefix of history lines of this run that reproduces it."""
+    bad_spec = [r for r in rows if r[3] != "-" and r[1] != r[3]]
+    bad_model = [r for r in rows if not (r[3] != "-" and r[1] != r[3]) and r[1] != r[2]]
+    distinct = set(r[0] for r in rows if "|" in r[1])
+    steps = sum(r[1].count("|") + 1 for r in rows if "|" in r[1])
+    rep.coverage["channels"]["json.hist"] = {
+        "ops": len(rows), "distinct_nontrivial": len(distinct), "steps": steps,
+        "impl_vs_spec_mismatch": len(bad_spec), "impl_vs_model_mismatch": len(bad_model),
+        "spec_answers": sum(1 for r in rows if r[3] != "-"), "distribution": stats}
+    rep.coverage["evaluations"] = rep.coverage.get("evaluations", 0) + len(rows)
+    rep.coverage["distinct_nontrivial"] = rep.coverage.get("distinct_nontrivial", 0) + len(distinct)
+    for r in rows[::max(1, len(rows) // 3)][:3]:
+        rep.coverage["samples"].append({"op": r[0], "impl": r[1], "model": r[2], "spec": r[3]})
+    bad_spec.sort(key=lambda r: len(r[0]))
+    bad_model.sort(key=lambda r: len(r[0]))
+    reported = 0
+    alone, dependent = [], []
+    for r in bad_spec[:40]:
+        if len(alone) >= max_report:
+            break
+        again = V.exec_impl(r[0] + "\n", 300)
+        if again and again[0] != r[3]:
+            alone.append((r[0], again[0], r[2], r[3]))
+        else:
+            dependent.append(r)
+    for op, impl, model, spec in alone:
+        if rep.match_known(op):
+            rep.violation("failing-input", {}, key=op)
+            continue
+        reported += 1
+        rep.violation("failing-input", {"channel": "json", "ops": [op], "spec_requires": spec, "impl_did": impl, "model_did": model,
+                                        "reproduces_in_a_fresh_process": True, "others_like_it": len(bad_spec),
+                                        "law": "Spec/JsonHistory.lean: an encoded result is a value (EncodeResultsStable, HistoryRoundTrip); "
+                                               "a decoded result changes only when it is itself mutated"}, key=op)
+    if bad_spec and not reported:
+        # state-dependent: needs what earlier history lines of this run left behind
+        op, impl, model, spec = bad_spec[0]
+        ops_all = [r[0] for r in rows]
+        prefix = ops_all[:ops_all.index(op) + 1]
+        for k in (1, 2, 4, 8, 16, 64, 256, len(prefix)):
+            cand = prefix[-min(k + 1, len(prefix)):]
+            out = V.exec_impl("\n".join(cand) + "\n", 600)
+            if out and out[-1] != spec:
+                prefix = cand
+                break
+        reported += 1
+        rep.violation("failing-input", {"channel": "json", "ops": prefix, "spec_requires": spec, "impl_did": impl, "model_did": model,
+                                        "reproduces_in_a_fresh_process": False, "others_like_it": len(bad_spec),
+                                        "note": "the last op fails only after the ops before it ran in the same process"}, key=op)
+    if bad_model and not reported:
+        op, impl, model, spec = bad_model[0]
+        rep.violation("correspondence-break", {"channel": "json", "ops": [r[0] for r in bad_model[:10]], "impl_did": impl, "model_did": model,
+                                               "spec": spec, "theorem_or_correspondence": "correspondence channel `json`, hist ops (impl vs Lean model)",
+                                               "mismatches": len(bad_model)}, key=op, no_input=True)
+    return bad_spec
